@@ -9,7 +9,7 @@ CHECKS = {
  "C02": ("runtime reference-model monitor: independent interpreter of the pinned wire schema compared byte-for-byte (encode) and value-for-value (decode) with the real codecs on generated canonical, arbitrary and wire-level inputs",
          "Exploration: per message type ('program') the library and an independent schema interpreter are run side by side on PRNG-determined values and images; any byte, accept/reject, consumed-length or value disagreement is a violation. Catches two-sided layout changes that every round-trip test is blind to. Holds on the executions observed.",
          "Trusts the frozen schema snapshot (extracted once from the pinned commit, Encode and Decode renderings cross-checked) and the 300-line reference codec, which is anchored by hand-written golden vectors in the self-test.", "§3 C02, §2.2"),
- "C03": ("runtime monitor of wire tokens: LE primitive output compared with token-wise byte-reversed BE output for 82 instantiated primitive pairs; every multi-byte numeric token of every message checked against the module's single byte order",
+ "C03": ("runtime monitor of wire tokens: LE primitive output compared with token-wise byte-reversed BE output for 107 instantiated primitive pairs (built-in and defined element/prefix types); every multi-byte numeric token of every message checked against the module's single byte order",
          "Exploration: all big/little-endian primitive pairs instantiated for every prefix and element type are driven with generated values, and every numeric token (scalar, count, element, text length, computed length, computed checksum) of every message type is located by the pinned schema and checked for the module's byte order. Holds on the executions observed.",
          "Token positions come from the pinned schema; the per-module byte order is data of the oracle (no per-field override exists in the schema format).", "§3 C03"),
  "C04": ("runtime invariant monitor on frame encodes: length token vs. appended bytes vs. object field vs. reference body length, under 7 buffer histories and stale caller values",
@@ -28,7 +28,7 @@ CHECKS = {
          "Exploration: images built token by token from the pinned schema (arbitrary pad placement, interior NUL, -0/sNaN, garbage or correct computed fields) and bit-flipped valid images; every accepted image is re-encoded and compared with the bytes consumed. Acceptance sets are sampled, not enumerated.",
          "Token positions of computed fields come from the pinned schema; own checksum implementations.", "§3 C08"),
  "C09": ("runtime monitor with panic trap, child-process isolation (RLIMIT_AS 2 GiB, pre-logged in-flight input) and an allocation-count step proxy on hostile inputs",
-         "Exploration: every decoder × random, truncated, bit-flipped, site-directed (every length/count token set to maximal values in both byte orders) and unknown-discriminator inputs; a panic, a dead child or more reader steps than 256+8·len refutes. Holds on the inputs observed.",
+         "Exploration: every decoder × random, truncated, bit-flipped, site-directed (every length/count/body-length token set to maximal and wrap-around values in both byte orders, also in receive buffers with 4 MiB spare capacity) and unknown-discriminator inputs, plus a run-time re-registration scenario per table; a panic, a dead child or more reader steps than 256+8·len refutes. Holds on the inputs observed.",
          "Step proxy relies on every reader loop iteration allocating at least once (true for binary.Read under the pinned toolchain; otherwise the bound only gets weaker, never a false alarm).", "§3 C09"),
  "C10": ("runtime allocation meter (runtime.MemStats.TotalAlloc delta around each Decode in a single-goroutine child) on site-directed hostile inputs",
          "Exploration: every length/count site of the schema is driven with maximal prefixes followed by 0/1/16 bytes or the valid remainder, plus random and legitimate large inputs; alloc <= 32 KiB + 64·len(input). All 60 sites must be reached or the run is inconclusive.",
@@ -45,23 +45,23 @@ CHECKS = {
  "C14": ("runtime reference-model monitor for the four checksum services: exhaustive short strings, random and multi-MiB inputs against own implementations; buffer non-consumption and repeatability observed",
          "Exploration with an exhaustively enumerated sub-space (all strings <= 2 bytes quick, <= 3 bytes thorough) plus random strings to 64 KiB and the specific lengths at which 32-bit accumulators overflow.",
          "Own CRC/sum implementations are self-tested on published check values.", "§3 C14"),
- "C15": ("runtime differential monitor: the same image decoded into a fresh receiver and into three kinds of dirty receivers, structural-equality oracle",
-         "Exploration: all 170 types × valid, wire-level and mutated images × 3 receiver histories (populated object, previously decoded other image, after a failed truncated decode). Holds on the executions observed.",
+ "C15": ("runtime differential monitor: the same image decoded into a fresh receiver and into five kinds of dirty receivers, structural-equality oracle",
+         "Exploration: all 170 types × valid, wire-level and mutated images × 5 receiver histories (populated object, previously decoded other image, after a failed truncated decode, aliased sub-objects, near miss of the expected result). Holds on the executions observed.",
          "Receiver histories are generated, not enumerated.", "§3 C15"),
  "C16": ("runtime aliasing monitor: snapshot comparison after scribbling over / reusing the source bytes and after mutating the message; repeated under the race-detector build (checkptr)",
          "Exploration: all 170 types × values with non-empty lists; decoded message vs deep snapshot after complementing the backing array, resetting/reusing the buffer, decoding another message; written bytes vs snapshot after in-place mutation of the message; zero checkptr/race aborts in the instrumented run.",
          "checkptr flags only invalid unsafe conversions; valid zero-copy aliases are caught by the snapshot oracle instead.", "§3 C16"),
  "C17": ("runtime monitor with panic trap and child-process isolation over zero, constructor and arbitrary values of every type",
-         "Exploration: every type × zero value, constructor result, arbitrary field contents, every registered key with nil body, unregistered keys, each nested pointer part nil (thorough: 70 000-element lists). A panic or a dead child refutes.",
+         "Exploration: every type × zero value, constructor result, arbitrary field contents, every registered key with nil body, unregistered keys, each nested pointer part nil (thorough: 70 000-element lists), into seven kinds of destination buffer; checksummed frames also with their service unregistered. A panic or a dead child refutes.",
          "Values with nil list elements or typed-nil bodies are excluded as the property says.", "§3 C17"),
  "C18": ("runtime monitor at the prefix limits: every prefixed writer and every prefixed field of every message at max and max+1 (u32 text via an untouched 4 GiB mapping in the thorough tier)",
-         "Exploration at enumerated boundary points: all prefixed primitives × u8/u16 × {max-1,max,max+1,2max+1}; every prefixed field of every message type at max (round trip) and max+1 (must error), also inside frames; thorough adds 2^32-byte texts behind u32 prefixes. 2^32-element lists are out of reach in this sandbox and not claimed.",
+         "Exploration at enumerated boundary points: all prefixed primitives × u8/u16 and defined types over them × {max-1,max,max+1,2max+1}; every prefixed field of every message type at max (round trip) and max+1 (must error), also inside frames; thorough adds 2^32-byte texts behind u32 prefixes. 2^32-element lists are out of reach in this sandbox and not claimed.",
          "Field enumeration comes from the pinned schema.", "§3 C18"),
  "C19": ("linearizability checking (porcupine v1.3.0) of recorded concurrent histories against a sequential map model, plus the Go race detector on the same workload",
-         "Exploration over schedules: thousands of short, genuinely overlapping histories of Registry/Get/Remove/Clear with unique-id services are recorded at the client boundary and checked; the same workload runs under -race. Holds on the histories and accesses observed.",
+         "Exploration over schedules: thousands of short, genuinely overlapping histories of Registry/Get/Remove/Clear with unique-id services are recorded at the client boundary and checked; the same workload runs under -race; five fresh processes start with Clear/Remove/Registry/Get on the built-in names as their very first registry calls. Holds on the histories and accesses observed.",
          "Monitors use no shared state inside the measured region; checker timeouts are inconclusive.", "§3 C19"),
  "C20": ("Go race detector plus result-equality oracle over 64 goroutines encoding/decoding private objects of all types; fresh-process first-use trials",
-         "Exploration over schedules: parallel results are compared with sequentially precomputed ones for all 170 types while the checksum registry and 18 discriminator maps are read concurrently; -race build reports are counted from the log; first-use trials start every table's first access concurrently in fresh processes.",
+         "Exploration over schedules: parallel results are compared with sequentially precomputed ones for all 170 types while the checksum registry and 18 discriminator maps are read concurrently and the four checksum services are also called directly; -race build reports are counted from the log; first-use trials start every table's first access concurrently in fresh processes.",
          "The race detector judges only accesses performed by the workload.", "§3 C20"),
 }
 NOT_YET = {}
